@@ -197,6 +197,11 @@ def load_configuration(text: str, statement_lines: dict) -> Outcome:
     # the statement under test may hold several statements once a stray ; { } got into it: any of them quoted will do
     quoted_at = []
     for n, stmt in statement_lines.items():
+        if stmt == '}':
+            # what a block lacks is only known where it ends
+            if re.search(r'line \d+: }', flat):
+                quoted_at.append(n)
+            continue
         parts = [' '.join(x.split()) for x in re.split(r'[;{}]', stmt)]
         if any(len(x) >= 3 and x in flat for x in parts):
             quoted_at.append(n)
@@ -222,7 +227,7 @@ def config_text(section_lines: list, families: list, comments: int) -> tuple:
     for line, is_statement in section_lines:
         lines.append(line)
         if is_statement:
-            where[len(lines)] = line.strip().rstrip(';{').strip()
+            where[len(lines)] = line.strip().rstrip(';{').strip() or '}'
     lines.append('}')
     return '\n'.join(lines) + '\n', where
 
@@ -279,7 +284,7 @@ def attempt_route(case: dict, cl: list) -> Outcome:
         head = cl[0][1]
         body = [('  static {', False), (f'    {head} {{', True)]
         body += [(f'      {c[1]};', True) for c in cl[1:] if c[1]]
-        body += [('    }', False), ('  }', False)]
+        body += [('    }', True), ('  }', False)]
     else:
         afi, rest = (text.split(' ', 1) + [''])[:2]
         body = [('  announce {', False), (f'    {afi} {{', False), (f'      {rest};', True), ('    }', False), ('  }', False)]
@@ -523,9 +528,7 @@ def _check_route(case: dict) -> dict:
         return {'nontrivial': nontrivial, 'classes': classes + ['refused:c17-netmask-interning']}
     if out.kind == 'unlocated':
         culprit, minimal, seen = isolate(case, attempt_route, out)
-        if mutation and mutation['what'] == 'nlri-length-over-255-bits':
-            culprit = 'nlri-length'
-        raise violation(f'config:unlocated-error:{form}:{culprit}', f'"{minimal[:300]}" in a configuration file is refused with "{seen.reason[:200]}": neither the line nor the statement ({describe(case)})')
+        raise violation(unlocated_signature(form, case, culprit), f'"{minimal[:300]}" in a configuration file is refused with "{seen.reason[:200]}": neither the line nor the statement ({describe(case)})')
     if out.kind == 'refused':
         if fits is True:
             culprit, minimal, seen = isolate(case, attempt_route, out)
@@ -615,7 +618,7 @@ def attempt_vpls(case: dict, cl: list) -> Outcome:
     if entry == 'config-flat':
         body = [('  l2vpn {', False), (f'    {text};', True), ('  }', False)]
     elif entry == 'config-block':
-        body = [('  l2vpn {', False), ('    vpls site-a {', False)] + [(f'      {c[1]};', True) for c in cl[1:] if c[1]] + [('    }', False), ('  }', False)]
+        body = [('  l2vpn {', False), ('    vpls site-a {', False)] + [(f'      {c[1]};', True) for c in cl[1:] if c[1]] + [('    }', True), ('  }', False)]
     else:
         body = [('  announce {', False), ('    l2vpn {', False), (f'      {text};', True), ('    }', False), ('  }', False)]
     text, where = config_text(body, ['l2vpn vpls'], 0)
@@ -636,12 +639,18 @@ def _check_vpls(case: dict) -> dict:
     classes = [f'entry:{case["entry"]}', f'fits:{fits}', 'mutation:' + (f'{mutation["kind"]}:{mutation["field"]}' if mutation else 'none')]
     out = attempt_vpls(case, cl)
     where = f'vpls via {case["entry"]}' + (f', {mutation["kind"]} on {mutation["field"]}' if mutation else '')
+    if out.kind == 'unlocated' and 'problem parsing configuration file' in out.reason:
+        direct = dict(case, entry='api')
+        again = attempt_vpls(direct, cl)
+        if again.kind == 'exception':
+            where += f'; in a configuration file the operator only reads "{out.reason[:160]}", neither the line nor the statement'
+            case, out = direct, again
     if out.kind == 'exception':
         culprit, minimal, _ = isolate(case, attempt_vpls, out, VPLS_SKELETON)
-        raise violation(exception_signature(f'parse:vpls:{culprit}', out.exc), f'{out.exc!r} for "{minimal[:300]}" ({where})') from out.exc  # type: ignore[arg-type]
+        raise violation(parse_signature('vpls', culprit, case, out.exc), f'{out.exc!r} at {innermost_repo_frame(out.exc)} for "{minimal[:300]}" ({where})') from out.exc  # type: ignore[arg-type]
     if out.kind == 'unlocated':
         culprit, minimal, _ = isolate(case, attempt_vpls, out, VPLS_SKELETON)
-        raise violation(f'config:unlocated-error:vpls:{culprit}', f'"{minimal[:300]}" in a configuration file is refused with "{out.reason[:200]}": neither the line nor the statement ({where})')
+        raise violation(unlocated_signature('vpls', case, culprit), f'"{minimal[:300]}" in a configuration file is refused with "{out.reason[:200]}": neither the line nor the statement ({where})')
     if out.kind == 'refused':
         if fits is True:
             rec = case['record']
@@ -653,12 +662,15 @@ def _check_vpls(case: dict) -> dict:
         try:
             msgs = encode(route, neighbor, neg)
         except Exception as exc:  # noqa: BLE001
+            if fits is False:
+                m = mutation or {'field': '?', 'what': '?'}
+                raise violation(f'accepted-unfit:vpls:{m["field"]}:{m["what"]}', f'"{text[:300]}" is accepted ({extensive(route)}), then encoding raises {exc!r} ({where})') from None
             field = (mutation or {}).get('field', 'none')
             raise violation(exception_signature(f'encode:vpls:{field}', exc), f'{exc!r} when "{text[:300]}" is encoded ({where})') from exc
         if fits is False:
             m = mutation or {'field': '?', 'what': '?'}
             wire = msgs[0][19:].hex()[:160] if msgs else 'nothing'
-            raise violation(f'accepted-unfit:vpls:{m["field"]}:{m["what"]}', f'"{text[:300]}" is accepted ({route.extensive()[:160]}), then sent as {wire} ({where})')
+            raise violation(f'accepted-unfit:vpls:{m["field"]}:{m["what"]}', f'"{text[:300]}" is accepted ({extensive(route)}), then sent as {wire} ({where})')
         if fits is True:
             if not msgs:
                 raise violation('wire:vpls:no-message', f'nothing is sent for "{text[:300]}"')
@@ -736,17 +748,26 @@ def attempt_flow(case: dict, cl: list) -> Outcome:
 
 
 def isolate_flow(case: dict, cl: list, failing: Outcome) -> tuple:
-    base = [c for c in cl if c[0] in ('destination',)] or cl[:1]
-    then = [c for c in cl if c[2] == 'then']
+    """(keyword of the clause which reproduces the failure beside a harmless rest, that text)"""
+    v6 = any(':' in c[1] for c in cl if c[0] in ('destination', 'source'))
+    safe_match = [['destination', 'destination 2001:db8:1::/48' if v6 else 'destination 10.9.0.0/24', 'match']]
     safe_then = [['discard', 'discard', 'then']]
+
+    def shown(trial: list) -> str:
+        return flow_texts(case, [x for x in trial if x[2] == 'match'], [x for x in trial if x[2] == 'then'])[1] or ' '.join(x[1] for x in trial)
+
     for c in cl:
-        if c[2] == 'match':
-            trial = ([] if c in base else base) + [c] + safe_then
-        else:
-            trial = base + [c]
+        trial = ([c] if c[0] in ('destination', 'source') else safe_match + [c]) + safe_then if c[2] == 'match' else safe_match + [c]
         if failing.same_failure(attempt_flow(case, trial)):
-            return c[0], flow_texts(case, [x for x in trial if x[2] == 'match'], [x for x in trial if x[2] == 'then'])[1] or ' '.join(x[1] for x in trial)
-    return 'several', flow_texts(case, [c for c in cl if c[2] == 'match'], then)[1] or ' '.join(x[1] for x in cl)
+            return c[0], shown(trial)
+    return 'several', shown(cl)
+
+
+def unlocated_signature(form: str, case: dict, culprit: str) -> str:
+    m = case['mutation']
+    if m and case['fits'] is not True:
+        return f'config:unlocated-error:{form}:{m["field"]}:{m["what"]}'
+    return f'config:unlocated-error:{form}:{culprit}'
 
 
 def check_flow(case: dict) -> dict:
@@ -764,12 +785,18 @@ def _check_flow(case: dict) -> dict:
     classes = [f'entry:{case["entry"]}', f'fits:{fits}', 'mutation:' + (f'{mutation["kind"]}:{mutation["field"]}' if mutation else 'none')]
     where = f'flow via {case["entry"]}' + (f', {mutation["kind"]} on {mutation["field"]}' if mutation else '')
     out = attempt_flow(case, cl)
+    if out.kind == 'unlocated' and 'problem parsing configuration file' in out.reason:
+        direct = dict(case, entry='api-block')
+        again = attempt_flow(direct, cl)
+        if again.kind == 'exception':
+            where += f'; in a configuration file the operator only reads "{out.reason[:160]}", neither the line nor the statement'
+            case, out = direct, again
     if out.kind == 'exception':
         culprit, minimal = isolate_flow(case, cl, out)
-        raise violation(exception_signature(f'parse:flow:{culprit}', out.exc), f'{out.exc!r} for "{minimal[:300]}" ({where}; whole text "{text[:300]}")') from out.exc  # type: ignore[arg-type]
+        raise violation(parse_signature('flow', culprit, case, out.exc), f'{out.exc!r} at {innermost_repo_frame(out.exc)} for "{minimal[:300]}" ({where}; whole text "{text[:300]}")') from out.exc  # type: ignore[arg-type]
     if out.kind == 'unlocated':
         culprit, minimal = isolate_flow(case, cl, out)
-        raise violation(f'config:unlocated-error:flow:{culprit}', f'"{minimal[:300]}" in a configuration file is refused with "{out.reason[:200]}": neither the line nor the statement ({where})')
+        raise violation(unlocated_signature('flow', case, culprit), f'"{minimal[:300]}" in a configuration file is refused with "{out.reason[:200]}": neither the line nor the statement ({where})')
     if out.kind == 'refused':
         if fits is True:
             classes.append('refused-valid')
@@ -780,12 +807,15 @@ def _check_flow(case: dict) -> dict:
         try:
             msgs = encode(route, neighbor, neg)
         except Exception as exc:  # noqa: BLE001
+            if fits is False:
+                m = mutation or {'field': '?', 'what': '?'}
+                raise violation(f'accepted-unfit:flow:{m["field"]}:{m["what"]}', f'"{text[:300]}" is accepted ({extensive(route)}), then encoding raises {exc!r} ({where})') from None
             field = (mutation or {}).get('field', 'none')
             raise violation(exception_signature(f'encode:flow:{field}', exc), f'{exc!r} when "{text[:300]}" is encoded ({where})') from exc
         if fits is False:
             m = mutation or {'field': '?', 'what': '?'}
             wire = msgs[0][19:].hex()[:160] if msgs else 'nothing'
-            raise violation(f'accepted-unfit:flow:{m["field"]}', f'"{text[:300]}" is accepted ({route.extensive()[:160]}), then sent as {wire} ({where})')
+            raise violation(f'accepted-unfit:flow:{m["field"]}:{m["what"]}', f'"{text[:300]}" is accepted ({extensive(route)}), then sent as {wire} ({where})')
         if fits is True and not msgs:
             raise violation('wire:flow:no-message', f'nothing is sent for "{text[:300]}"')
     return {'nontrivial': bool(case['near']), 'classes': classes, 'sample': {'text': text[:200], 'entry': case['entry']}}
